@@ -29,15 +29,23 @@ MANIFEST = dict(
          "area_langmuir, t_plot, dr_plot, da_plot, psd_mesoporous, psd_microporous and alpha_s (sample side) name everything they read "
          "(entry_points_read_invariantly), psd_dft names all six labels from the kernel's units, initial_henry_* read native columns "
          "(covariant: exact factor lfac/pfac for least-squares slopes), and - refuted - the alpha_s reference look-up names only the "
-         "sample's pressure unit and no loading basis, isosteric_enthalpy reads pressures in each isotherm's own mode/unit. OLS slope and "
-         "intercept scale with the data, slope/intercept and r^2 are unchanged. PARTIAL: what the raw routines compute from the acquired "
-         "columns (point selection, optimisers, pore-size recurrences) is not modelled here - invariance of the final results follows from "
-         "invariance of the inputs only for deterministic raw routines, and is validated metamorphically on the implementation.",
+         "sample's pressure unit and no loading basis, isosteric_enthalpy reads pressures in each isotherm's own mode/unit. Scaling clause: OLS slope "
+         "and intercept scale with the data, slope/intercept and r^2 are unchanged; area_BET_raw (model over the generated BET formulas) selects the "
+         "same window - manual or Rouquerol - for every positive scale factor and returns n_m, area x c, slope, intercept / c, C and p_m unchanged; "
+         "the three classical mesopore recurrences and psd_mesoporous "
+         "(model of Charact/PsdMeso.v, tied to the code by the C16 correspondence) are homogeneous of degree 1 in the loadings - volumes, areas, "
+         "distribution and cumulative curve x c, widths and window unchanged, lists of any length (induction carrying the loops' running sums); the "
+         "Horvath-Kawazoe distribution tail (generated) is homogeneous of degree 1 and the Cheng-Yang coverages do not change for c > 0. PARTIAL: "
+         "what the other raw routines compute from the acquired columns (point selection, optimisers) is not modelled here - invariance of the "
+         "final results follows from invariance of the inputs only for deterministic raw routines, and is validated metamorphically on the "
+         "implementation: fresh converted copies, the SAME objects analysed / converted in place / analysed again (stale caches), scale factors "
+         "1e-6 ... 1e6.",
     note="Trusted: Coq kernel; Reals axioms; translators py2v_units.py (C01) and py2v_static.py (AST pattern extraction; an accessor call it "
          "cannot classify aborts); the hand-written accessor model (validated against PointIsotherm.pressure/loading/loading_at on every "
          "run); scipy/numpy in the raw routines (not modelled); binary64 rounding (1e-6 / 1e-4 tolerances in the metamorphic runs).",
     technique="Coq proof over generated converters + generated acquisition table; accessor model correspondence; metamorphic testing of the implementation")
 
+EXTRA_TARGETS = ['Charact/InvShow.vo']
 HEADER = """From Coq Require Import QArith ZArith String List Bool.
 From PG Require Import Lib.Num Lib.Py Lib.Show Gen.UnitsGen1 Units.AdsOracle Gen.UnitsGen2 Charact.Invariance Charact.InvShow.
 Import ListNotations. Open Scope string_scope.
@@ -103,6 +111,17 @@ def clone(iso, scale=1.0):
 def convert(iso, rp=None, rl=None, tu=None):
     """a fresh copy converted (with the implementation's own permanent conversions, the subject of C02) to another stored representation"""
     v = clone(iso)
+    if rp is not None:
+        v.convert_pressure(mode_to=rp[0], unit_to=rp[1])
+    if rl is not None:
+        v.convert_loading(basis_to=rl[0], unit_to=rl[1])
+    if tu is not None:
+        v.convert_temperature(tu)
+    return v
+
+
+def convert_in_place(v, rp=None, rl=None, tu=None):
+    """the implementation's permanent conversions applied to the isotherm object itself (which may already have been analysed)"""
     if rp is not None:
         v.convert_pressure(mode_to=rp[0], unit_to=rp[1])
     if rl is not None:
@@ -298,6 +317,10 @@ def alphas_sample(iso, ref0):
 
 def classify(entry, kind, info):
     key = entry.split(':')[0]
+    if key == 'psd_dft' and kind == 'scaling' and info.get('factor', 1.0) >= 1e3 and info.get('outcome') == 'CalculationError' \
+            and 'Inequality constraints incompatible' in str(info.get('error', '')):
+        # SLSQP works on the unscaled sum of squares with an absolute ftol: for loadings of thousands of mmol/g it gives up
+        return 'C15:psd_dft-slsqp-fails-on-large-loading-magnitude'
     if key == 'psd_dft' and kind in ('representation', 'scaling') and info.get('inputs_agree'):
         # the columns handed to the kernel fit agree to 1e-9; the SLSQP / B-spline deconvolution amplifies the last-bit differences
         return 'C15:psd_dft-fit-sensitive-to-rounding'
@@ -330,7 +353,7 @@ def metamorphic(rep, tier, seed, isos):
     nontrivial = set()
     hist = {}
     nvar = 4 if tier == 'quick' else 30
-    factors = [0.5, 3.0] if tier == 'quick' else [0.5, 3.0, 1e3]
+    factors = [0.5, 3.0, 1e-6, 1e6] if tier == 'quick' else [0.5, 3.0, 1e-3, 1e3, 1e-4, 1e-6, 1e6]
     single = ['area_BET', 'area_langmuir', 't_plot', 'dr_plot', 'da_plot', 'psd_mesoporous:pygaps-DH', 'psd_mesoporous:BJH', 'psd_mesoporous:DH',
               'psd_microporous:HK', 'psd_microporous:HK-CY', 'psd_microporous:RY', 'psd_microporous:RY-CY', 'psd_dft', 'initial_henry_slope', 'initial_henry_virial']
 
@@ -344,6 +367,12 @@ def metamorphic(rep, tier, seed, isos):
         out.append((('relative%', None), ('volume_gas', 'L'), 'K'))
         out.append((('relative', None), ('mass', 'mg'), 'K'))
         out.append((('absolute', 'bar'), ('volume_gas', 'cm3'), 'K'))
+        return out
+
+    def reuse_variants():
+        out = [(('absolute', 'kPa'), ('mass', 'mg'), '°C'), (None, rnd.choice(LREPS), None)]
+        if tier != 'quick':
+            out += [(rnd.choice(PREPS), None, None), (rnd.choice(PREPS), rnd.choice(LREPS), rnd.choice(['K', '°C']))]
         return out
 
     SYN = {'syn-bet': ('area_BET', 't_plot', 'psd_mesoporous', 'psd_dft', 'initial_henry'), 'syn-langmuir': ('area_langmuir', 'initial_henry'),
@@ -398,7 +427,8 @@ def metamorphic(rep, tier, seed, isos):
                 note(entry, 'scaling', oc)
                 info = {'entry': entry, 'isotherm': name, 'kind': 'scaling', 'factor': c}
                 if oc != 'Ok':
-                    rep.failure(classify(entry, 'scaling', info), '%s(%s) raises %s when all loadings are multiplied by %g' % (entry, name, oc, c), info)
+                    info['outcome'], info['error'] = oc, str(var)
+                    rep.failure(classify(entry, 'scaling', info), '%s(%s) raises %s (%s) when all loadings are multiplied by %g' % (entry, name, oc, str(var)[:80], c), info)
                     continue
                 d = differ(entry, base, var, factor=c)
                 info['lfac'] = c
@@ -409,6 +439,41 @@ def metamorphic(rep, tier, seed, isos):
                     rep.failure(classify(entry, 'scaling', info), '%s(%s): loadings x %g: %s' % (entry, name, c, d[:3]), info)
                 else:
                     nontrivial.add((entry, name, 'scale', c))
+            # ---- the SAME isotherm object: analysed, converted in place, analysed again (whatever the first analysis cached - interpolators,
+            #      memoised properties - must not survive the conversion)
+            for rp, rl, tu in reuse_variants():
+                obj = clone(iso0)
+                oc1, first = run_entry(entry, obj)
+                convert_in_place(obj, rp, rl, tu)
+                oc, var = run_entry(entry, obj)
+                n_eval += 2
+                note(entry, 'reuse', oc)
+                info = {'entry': entry, 'isotherm': name, 'kind': 'reuse', 'rp': rp and list(rp), 'rl': rl and list(rl), 'tu': tu}
+                what = '%s(%s): the same object analysed, converted in place to %s and analysed again' % (entry, name, (rp, rl, tu))
+                if oc1 != 'Ok' or oc != 'Ok':
+                    rep.failure(classify(entry, 'representation', info), what + ': raises %s / %s (%s)' % (oc1, oc, var if oc != 'Ok' else first), info)
+                    continue
+                if henry:
+                    b0 = clone(iso0)
+                    i = int(np.argmax(np.abs(b0.data_raw[b0.loading_key].values)))
+                    lfac = obj.data_raw[obj.loading_key].values[i] / b0.data_raw[b0.loading_key].values[i]
+                    j = int(np.argmax(np.abs(b0.data_raw[b0.pressure_key].values)))
+                    pfac = obj.data_raw[obj.pressure_key].values[j] / b0.data_raw[b0.pressure_key].values[j]
+                    want = base['value'] * lfac / pfac
+                    info['lfac'], info['pfac'] = float(lfac), float(pfac)
+                    if not abs(var['value'] - want) <= 1e-4 * abs(want):
+                        rep.failure(classify(entry, 'henry-factor', info), what + ': %r, the unit factors give %r' % (var['value'], want), info)
+                    else:
+                        nontrivial.add((entry, name, 'reuse', rp, rl))
+                    continue
+                d = differ(entry, base, var)
+                if d and entry == 'psd_dft':
+                    info['inputs_agree'] = not any(k.startswith('/acquired') for k, _ in d) and \
+                        np.allclose(var['acquired_pressure'], base['acquired_pressure'], rtol=1e-9, atol=0) and np.allclose(var['acquired_loading'], base['acquired_loading'], rtol=1e-9, atol=0)
+                if d:
+                    rep.failure(classify(entry, 'representation', info), what + ': %s' % (d[:3],), info)
+                else:
+                    nontrivial.add((entry, name, 'reuse', rp, rl))
     # ---- alpha_s: sample and reference
     ref0 = convert(isos['SiO2'], ('relative', None))        # a reference the routine can read: relative mode, mmol/g
     samples = {n: alphas_sample(isos[n], ref0) for n in (('MCM-41', 'Takeda 5A') if tier == 'quick' else [n for n in isos if n != 'SiO2'])}
@@ -440,6 +505,24 @@ def metamorphic(rep, tier, seed, isos):
                 rep.failure(classify('alpha_s', 'scaling', info), 'alpha_s(%s): sample loadings x %g: %s' % (sname, c, d[:2]), info)
             else:
                 nontrivial.add(('alpha_s', sname, 'scale', c))
+        # the same sample / reference OBJECT analysed, converted in place, analysed again. The reference keeps a representation the routine can
+        # read (relative pressure, molar basis - see the findings on the reference look-up); its loading unit and temperature unit change.
+        for kind, rp, rl, tu in [('sample', ('absolute', 'kPa'), ('mass', 'mg'), '°C'), ('sample', None, rnd.choice(LREPS), None),
+                                 ('reference', None, ('molar', 'mol'), '°C'), ('reference', ('relative', None), ('molar', rnd.choice(['mol', 'kmol', 'cm3(STP)'])), None)]:
+            s = clone(s0)
+            r = convert(isos['SiO2'], ('relative', None))
+            oc1, first = run_entry('alpha_s', s, r)
+            convert_in_place(s if kind == 'sample' else r, rp, rl, tu)
+            oc, var = run_entry('alpha_s', s, r)
+            n_eval += 2
+            note('alpha_s', 'reuse-' + kind, oc)
+            info = {'entry': 'alpha_s', 'isotherm': sname, 'kind': 'reuse-' + kind, 'rp': rp and list(rp), 'rl': rl and list(rl), 'tu': tu}
+            d = differ('alpha_s', base, var) if (oc1, oc) == ('Ok', 'Ok') else [('outcome', '%s / %s: %s' % (oc1, oc, var if oc != 'Ok' else first))]
+            if d:
+                rep.failure('C15:unclassified:alpha_s:reuse-%s' % kind, 'alpha_s(%s, reference SiO2): the same %s object analysed, converted in place to %s and analysed again: %s' % (
+                    sname, kind, (rp, rl, tu), d[:2]), info)
+            else:
+                nontrivial.add(('alpha_s', sname, 'reuse', kind, rp, tuple(rl) if rl else None))
     # ---- isosteric enthalpy: the three BAX-1500 butane isotherms + a synthetic Clausius-Clapeyron set
     sets = {'BAX-1500': [load(f, 'isosteric') for f in ISOSTERIC]}
     for sname, iset in sets.items():
@@ -473,6 +556,25 @@ def metamorphic(rep, tier, seed, isos):
                     sname, kind, rps, rls, d[:2]), info)
             else:
                 nontrivial.add(('isosteric_enthalpy', sname, kind, tuple(rps), tuple(rls)))
+        # the same three OBJECTS analysed (pressure_at builds their interpolators), converted in place, analysed again; representations in which the
+        # routine is sound (absolute pressure in one unit, molar or mass loading - see the findings for the others)
+        for rp, rl, tu in [(('absolute', 'kPa'), ('mass', 'mg'), '°C'), (None, ('mass', 'g'), None), (None, ('molar', 'mol'), None), (('absolute', 'torr'), None, None),
+                           (('absolute', 'Pa'), ('molar', rnd.choice(['mol', 'kmol', 'cm3(STP)'])), rnd.choice(['K', '°C']))]:
+            objs = [clone(i) for i in iset]
+            oc1, first = run_entry('isosteric_enthalpy', objs)
+            for o_ in objs:
+                convert_in_place(o_, rp, rl, tu)
+            oc, var = run_entry('isosteric_enthalpy', objs)
+            n_eval += 2
+            note('isosteric_enthalpy', 'reuse', oc)
+            info = {'entry': 'isosteric_enthalpy', 'isotherm': sname, 'kind': 'reuse', 'rp': rp and list(rp), 'rl': rl and list(rl), 'tu': tu}
+            keep = lambda r: {k: v for k, v in r.items() if k != 'loading'}
+            d = differ('isosteric_enthalpy', keep(base), keep(var)) if (oc1, oc) == ('Ok', 'Ok') else [('outcome', '%s / %s: %s' % (oc1, oc, var if oc != 'Ok' else first))]
+            if d:
+                rep.failure('C15:unclassified:isosteric_enthalpy:reuse', 'isosteric_enthalpy(%s): the same isotherm objects analysed, converted in place to %s and analysed again: %s' % (
+                    sname, (rp, rl, tu), d[:2]), info)
+            else:
+                nontrivial.add(('isosteric_enthalpy', sname, 'reuse', rp, rl))
         for c in factors:
             oc, var = run_entry('isosteric_enthalpy', [clone(i, scale=c) for i in iset])
             n_eval += 1
@@ -493,7 +595,7 @@ def all_isotherms(tier):
 
 
 def run(rep, tier, seed):
-    vlib.standard_proof_phase(rep, 'C15', extra_targets=['Charact/InvShow.vo'])
+    vlib.standard_proof_phase(rep, 'C15', extra_targets=EXTRA_TARGETS)
     explore(rep, tier, seed)
     if rep.broken and not rep.violations and tier != 'thorough':
         explore(rep, 'thorough', seed + 1)
@@ -507,8 +609,9 @@ def explore(rep, tier, seed):
     rep.cov['distinct_nontrivial'] = len(nontrivial)
     rep.cov['rule'] = ('metamorphic: every entry point (area_BET, area_langmuir, t_plot, alpha_s, dr_plot, da_plot, psd_mesoporous x 3 models, psd_microporous x 4 '
                        'models, psd_dft, initial_henry_slope, initial_henry_virial, isosteric_enthalpy) x 5 shipped N2 isotherms + 3 synthetic (BET, Langmuir, DA) x '
-                       'random (pressure representation of 10, non-fractional loading representation of 25, temperature unit) + 2 fixed variants x scale factors; '
-                       'alpha_s with sample / reference converted; isosteric sets converted jointly and mixed. non-trivial = distinct (entry point, isotherm, variant) '
+                       'random (pressure representation of 10, non-fractional loading representation of 25, temperature unit) + 4 fixed variants x scale factors '
+                       '0.5, 3, 1e-6, 1e6 (thorough: also 1e-4, 1e-3, 1e3); the SAME object analysed, converted in place and analysed again (every entry point; '
+                       'alpha_s sample and reference objects; the isosteric set); alpha_s with sample / reference converted; isosteric sets converted jointly and mixed. non-trivial = distinct (entry point, isotherm, variant) '
                        'whose result agreed field by field (1e-6; optimiser-based routines 1e-4) with the baseline / the exact factor')
     rep.cov['input_distribution'] = hist
     rep.cov['tolerance'] = {'default_rel': 1e-6, 'optimiser_based_rel': 1e-4}
@@ -529,10 +632,17 @@ def replay(d):
     isos = all_isotherms('quick')
     entry = r['entry']
     print('replaying', r)
+    tup = lambda x: tuple(x) if x else None
     if entry == 'isosteric_enthalpy':
         iset = [load(f, 'isosteric') for f in ISOSTERIC]
         oc0, base = run_entry(entry, [clone(i) for i in iset])
-        if r['kind'] == 'scaling':
+        if r['kind'] == 'reuse':
+            objs = [clone(i) for i in iset]
+            print('same objects, first analysis:', run_entry(entry, objs)[0])
+            for o_ in objs:
+                convert_in_place(o_, tup(r['rp']), tup(r['rl']), r['tu'])
+            oc, var = run_entry(entry, objs)
+        elif r['kind'] == 'scaling':
             oc, var = run_entry(entry, [clone(i, scale=r['factor']) for i in iset])
         else:
             oc, var = run_entry(entry, [convert(i, tuple(rp), tuple(rl), tu) for i, rp, rl, tu in zip(iset, r['rps'], r['rls'], r['tus'])])
@@ -544,7 +654,12 @@ def replay(d):
         ref0 = convert(isos['SiO2'], ('relative', None))
         s0 = alphas_sample(iso0, ref0)
         oc0, base = run_entry(entry, s0, ref0)
-        if r['kind'] == 'scaling':
+        if r['kind'].startswith('reuse-'):
+            s_, r_ = clone(s0), convert(isos['SiO2'], ('relative', None))
+            print('same objects, first analysis:', run_entry(entry, s_, r_)[0])
+            convert_in_place(s_ if r['kind'] == 'reuse-sample' else r_, tup(r['rp']), tup(r['rl']), r['tu'])
+            oc, var = run_entry(entry, s_, r_)
+        elif r['kind'] == 'scaling':
             oc, var = run_entry(entry, clone(s0, scale=r['factor']), ref0)
         elif r['kind'] == 'sample':
             oc, var = run_entry(entry, convert(s0, tuple(r['rp']), tuple(r['rl']), r['tu']), ref0)
@@ -552,7 +667,12 @@ def replay(d):
             oc, var = run_entry(entry, s0, convert(isos['SiO2'], tuple(r['rp']), tuple(r['rl']), r['tu']))
     else:
         oc0, base = run_entry(entry, clone(iso0))
-        if r['kind'] == 'scaling':
+        if r['kind'] == 'reuse':
+            obj = clone(iso0)
+            print('same object, first analysis:', run_entry(entry, obj)[0])
+            convert_in_place(obj, tup(r['rp']), tup(r['rl']), r['tu'])
+            oc, var = run_entry(entry, obj)
+        elif r['kind'] == 'scaling':
             oc, var = run_entry(entry, clone(iso0, scale=r['factor']))
         else:
             oc, var = run_entry(entry, convert(iso0, tuple(r['rp']), tuple(r['rl']), r['tu']))
